@@ -31,19 +31,33 @@ TRUSTED = [
     "its seed argument (seeded_deterministic)",
     "torch.nn.functional.pad (constant mode, flat padding list starting at the last dimension), index_select, "
     "one_hot, in-place mul_/add_ behave as documented (Model.torch_pad etc.; validated entry by entry on every case)",
-    "harness/c11.py: id-encoded datasets with an access log, recording / scripted generators injected by replacing "
-    "the module attribute `np` of kd_mix_wrapper, decoding of partner and weight",
+    "harness/c11.py: id-encoded datasets with an access log (incl. which context object every call was handed), "
+    "recording / scripted generators injected by replacing the module attribute `np` of kd_mix_wrapper, decoding of "
+    "partner and weight; the context model is abstract: a load handed the request's dictionary may record into it, "
+    "the harness dataset / recording transform record the index of the sample they see",
 ]
 ASSUMPTIONS = [
     "the wrapped dataset returns a fresh (unaliased) x tensor on every getitem_x call: the wrapper mixes x in place "
-    "(x.mul_ / x2.mul_).  Measured: with a dataset handing out its stored tensors the stored data of sample i and of "
-    "the partner are overwritten and partner == i yields 2*lam*(1-lam)*x (cases alias_x, counted, outside the claim)",
+    "(x.mul_ / x2.mul_).  Every tensor-producing getitem_x shipped with the package does (kd_image_folder loads from "
+    "disk, all five tests_util datasets clone explicitly -- unlike getitem_class, which hands out the stored label and "
+    "was repaired in 2b476f5).  Measured: with a dataset handing out its stored tensors the stored data of sample i and "
+    "of the partner are overwritten and partner == i yields 2*lam*(1-lam)*x (cases alias_x, counted, outside the "
+    "claim); with fresh tensors partner == i returns sample i (theorem self_partner_returns_sample)",
     "all samples of a dataset have the same rank >= 1 and a float dtype (differing ranks: RuntimeError from torch)",
-    "labels are class ids in [0, n_classes) (Python int, 0-dim tensor) or 1-d probability vectors of length n_classes; "
-    "n_classes >= 2 (the binary case getdim_class() == 1 is not supported by to_one_hot_vector: one_hot(1, 1) raises)",
+    "labels are class ids in [0, n_classes) (Python int, 0-dim integer tensor) or 1-d vectors of length n_classes; "
+    "'non-negative and sums to one' is claimed where the label vectors going in are probability vectors.  A class id "
+    "outside [0, n_classes) makes torch's one_hot raise RuntimeError as soon as that sample is loaded (explicit, "
+    "outside the claim, modelled as ELabel) -- this is what happens to binary scalar labels with getdim_class() == 1: "
+    "label 1 raises, label 0 becomes the 1-class one-hot vector [1.]; binary labels given as 1-element float vectors "
+    "are mixed like any other vector (convex combination; measured, label kind vec1)",
+    "LabelSmoothingWrapper ABOVE the mix wrapper is rejected explicitly (every mode with 'x': ModeWrapper asserts "
+    "getitem_x / getitem_xclass on the outermost wrapper class; 'class' alone: the smoothing wrapper's assertion on "
+    "vector labels) -- measured (stack ls_above); below the mix wrapper it is part of the claim",
     "cutmix (cutmix_p > 0 and apply < cutmix_p) and unknown mixup_unify_shapes_mode raise NotImplementedError; "
     "mixup_unify_shapes_mode=None with differing shapes raises AssertionError; items other than x / class / index "
     "raise AssertionError in ModeWrapper.__init__ (explicit, outside the claim, classified and modelled)",
+    "the returned context: the wrapper records nothing itself; every entry comes from a load of sample i (repaired: "
+    "fixes/C11_partner_ctx.patch; before, the partner's loads overwrote the entries of sample i)",
     "the partner may be sample i itself (integers(len) includes i): then the result equals sample i",
     "constructor arguments satisfy the constructor's assertions",
 ]
@@ -53,13 +67,19 @@ RULE = ("n in 1..7 samples of rank 1..3 with dims 1..5, equal shapes or independ
         "unknown; seed set (0..10^6) or None; all orders of subsets of {x, class, index} (+ an unknown item); idx in "
         "-n..n-1; draws from numpy default_rng or a scripted generator injecting edge draws (apply == total_p, "
         "apply == cutmix_p, partner == i / 0 / n-1, lambda 0 / 1); non-trivial = returned and a partner was loaded; "
-        "distinct by (shapes of i and partner, tokens, label kind, unify, seeded, p)")
+        "stacks: a ctx-recording XTransformWrapper and/or a real LabelSmoothingWrapper below the mix wrapper, an "
+        "XTransformWrapper above it; return_ctx on/off (every entry of the returned context must describe sample i; the "
+        "dataset logs which calls were handed the returned context object); class counts incl. 1 and class ids out of "
+        "range; 1-element float label vectors; every 7th case (thorough: with 2 workers) additionally fetches the "
+        "sample through a torch DataLoader with the stack's worker_init_fn; "
+        "distinct by (shapes of i and partner, tokens, label kind, unify, seeded, p, stack, return_ctx)")
 
 TOKSETS = [["x", "class"], ["class", "x"], ["x"], ["class"], ["x", "class", "index"], ["index", "x", "class"],
            ["x", "index", "class"], ["class", "index", "x"], ["index", "class", "x"], ["class", "x", "index"],
            ["index", "x"], ["x", "index"], ["class", "index"], ["index", "class"], ["index"]]
 ALPHAS = [0.1, 0.3, 0.8, 1.0, 1, 2.0, 5.0]
 LABEL_KINDS = ["int", "int", "computed", "tensor0", "vec_onehot", "vec_soft", "vec_long"]
+INT_KINDS = ("int", "computed", "tensor0", "int_oor")
 
 
 # ---------------------------------------------------------------------------
@@ -191,14 +211,25 @@ def label_rows(case):
     kind, vals = case["labels"]
     n = case["ncls"]
     out = []
+    smooth = (case.get("stack") or {}).get("ls_below") or 0
     for v in vals:
-        if kind in ("int", "computed", "tensor0"):
+        if kind in INT_KINDS and smooth and 0 <= v < n:
+            # what a LabelSmoothingWrapper below the mix wrapper hands out: a float32 vector
+            off = smooth / n
+            on = 1. - smooth + off
+            out.append(("vec", [Fraction(f32(on if j == v else off)) for j in range(n)]))
+        elif kind in INT_KINDS:
             out.append(("int", v))
         elif kind in ("vec_onehot", "vec_long"):
             out.append(("vec", [Fraction(1 if j == v else 0) for j in range(n)]))
         else:
             out.append(("vec", [Fraction(a, 16) for a in v]))
     return out
+
+
+def f32(v):
+    import numpy as np
+    return float(np.float32(v))
 
 
 def label_vec(row, n):
@@ -216,7 +247,7 @@ def build_dataset(case, events):
           for k, sh in enumerate(case["shapes"])]
     if kind == "vec_onehot":
         store = torch.eye(ncls)[torch.tensor(vals)].clone()                    # float matrix, rows handed out as views
-    elif kind == "vec_soft":
+    elif kind in ("vec_soft", "vec1"):
         store = torch.tensor([[a / 16.0 for a in v] for v in vals], dtype=torch.float32)
     elif kind == "vec_long":
         store = torch.nn.functional.one_hot(torch.tensor(vals), ncls)          # long matrix
@@ -233,12 +264,16 @@ def build_dataset(case, events):
             self.store = store
 
         def getitem_x(self, idx, ctx=None):
-            events.append(("x", int(idx), type(idx).__name__))
+            events.append(("x", int(idx), type(idx).__name__, ctx))
+            if ctx is not None:
+                ctx["x_of"] = int(idx)             # what an upstream loader / transform records about ITS sample
             x = self.xs[idx]
             return x if alias else x.clone()
 
         def getitem_class(self, idx, ctx=None):
-            events.append(("class", int(idx), type(idx).__name__))
+            events.append(("class", int(idx), type(idx).__name__, ctx))
+            if ctx is not None:
+                ctx["cls_of"] = int(idx)
             if kind == "computed":
                 return (idx * case["label_mul"] + case["label_add"]) % ncls      # type follows the type of idx
             return self.store[idx]                                              # no clone: like tests_util's dataset
@@ -306,7 +341,8 @@ def parse_calls(events):
             return None
         loads = list(events[start:r]) + list(events[r + 1:end])
         spy = events[r][1]
-        calls.append({"seed": spy.seed_arg, "trace": spy.trace, "loads": [[e[0], e[1], e[2]] for e in loads]})
+        calls.append({"seed": spy.seed_arg, "trace": spy.trace, "loads": [[e[0], e[1], e[2]] for e in loads],
+                      "ctx_objs": [e[3] if len(e) > 3 else None for e in loads]})
         prev_end = end
     if not pos and events:
         return None
@@ -320,15 +356,56 @@ def classify(e, stage):
         return "AssertionError@" + stage
     if isinstance(e, TypeError) and stage == "getitem" and "NoneType" in str(e) and "float()" in str(e):
         return "TypeError@beta(None)"
+    if isinstance(e, RuntimeError) and stage == "getitem" and "Class values must be" in str(e):
+        return "RuntimeError@one_hot"
     return type(e).__name__ + "@" + stage + ": " + str(e)[:160]
 
 
+def _double(x):
+    return x * 2
+
+
+def _identity_collate(batch):
+    return batch
+
+
+def build_stack(case, ds, kw):
+    """the wrapped dataset stack: [XTransformWrapper(recording)] -> [LabelSmoothingWrapper] -> KDMixWrapper -> [XTransformWrapper(x*2)]"""
+    from kappadata.transforms.base.kd_transform import KDTransform
+    from kappadata.wrappers.sample_wrappers.kd_mix_wrapper import KDMixWrapper
+    from kappadata.wrappers.sample_wrappers.label_smoothing_wrapper import LabelSmoothingWrapper
+    from kappadata.wrappers.sample_wrappers.x_transform_wrapper import XTransformWrapper
+    stack = case.get("stack") or {}
+    below = ds
+    if stack.get("xt_rec_below"):
+        class Recording(KDTransform):
+            """a transform that records a parameter of the sample it is applied to (here: which sample it saw)"""
+
+            def __call__(self, x, ctx=None):
+                if ctx is not None:
+                    ctx["rec_of"] = int(float(x.flatten()[0])) // 8 - 1 if x.numel() else -1
+                return x
+
+        below = XTransformWrapper(dataset=below, transform=Recording())
+    if stack.get("ls_below"):
+        below = LabelSmoothingWrapper(dataset=below, smoothing=stack["ls_below"])
+    w = KDMixWrapper(dataset=below, **kw)
+    top = w
+    if stack.get("xt_above"):
+        top = XTransformWrapper(dataset=w, transform=_double)
+    elif stack.get("ls_above"):
+        # not a supported stack: the smoothing wrapper has no fused getitem_xclass and smooths class ids only
+        top = LabelSmoothingWrapper(dataset=w, smoothing=stack["ls_above"])
+    return w, top
+
+
 def run_impl(case):
+    import gc
     import torch
     import numpy as np
+    from torch.utils.data import DataLoader
     from kappadata.wrappers.mode_wrapper import ModeWrapper
     from kappadata.wrappers.sample_wrappers import kd_mix_wrapper as M
-    from kappadata.wrappers.sample_wrappers.kd_mix_wrapper import KDMixWrapper
 
     n = len(case["shapes"])
     idx = case["idx"]
@@ -345,18 +422,31 @@ def run_impl(case):
         kw["seed"] = case["seed"]
     obs = {"result": "ok", "total_p": None}
     try:
-        w = KDMixWrapper(dataset=ds, **kw)
+        w, top = build_stack(case, ds, kw)
     except Exception as e:
         obs["result"] = classify(e, "KDMixWrapper")
         return obs
     obs["total_p"] = float(w.total_p)
     mode = " ".join(case["tokens"])
+    rc = bool(case.get("rc", False))
+    above = bool((case.get("stack") or {}).get("xt_above"))
+
+    def unpack_out(out):
+        """-> (items, ctx | None) with the x items un-doubled when an x*2 transform sits above the mix wrapper"""
+        ctx = None
+        if rc:
+            out, ctx = out
+        items = [out] if len(case["tokens"]) == 1 else (list(out) if isinstance(out, (tuple, list)) else [out])
+        if above:
+            items = [it / 2 if (t == "x" and isinstance(it, torch.Tensor)) else it for it, t in zip(items, case["tokens"])]
+        return out, items, ctx
+
     orig_np = M.np
     M.np = NpProxy(orig_np, make_factory(case, events, norm_idx))
     out = None
     try:
         try:
-            mw = ModeWrapper(dataset=w, mode=mode)
+            mw = ModeWrapper(dataset=top, mode=mode, return_ctx=rc)
         except Exception as e:
             obs["result"] = classify(e, "ModeWrapper")
             return obs
@@ -367,21 +457,30 @@ def run_impl(case):
         obs["calls"] = parse_calls(events)
         obs["mutated"] = mutated(ds, pristine)
         if obs["result"] != "ok":
+            for c in obs["calls"] or []:
+                c.pop("ctx_objs", None)
             return obs
         toks = case["tokens"]
+        out, items, ctx = unpack_out(out)
         if len(toks) == 1:
             obs["layout"] = "tuple" if isinstance(out, (tuple, list)) else "single"
-            items = [out]
         else:
             obs["layout"] = "tuple" if isinstance(out, tuple) and len(out) == len(toks) else f"{type(out).__name__}"
-            items = list(out) if isinstance(out, (tuple, list)) else [out]
         obs["items"] = [summarise(it, t) for it, t in zip(items, toks)]
         obs["n_items"] = len(items)
+        # the context: which calls of the wrapped dataset were handed the dictionary that is returned, what it contains
+        for c in obs["calls"] or []:
+            objs = c.pop("ctx_objs")
+            c["ctx_loads"] = [l for l, o in zip(c["loads"], objs) if ctx is not None and o is ctx]
+        if rc:
+            obs["ctx"] = {str(k): (int(v) if isinstance(v, int) else repr(v)) for k, v in ctx.items()}
+        else:
+            obs["ctx"] = None
 
         # the three requests (and a repetition) under the same seed; alias datasets are restored first
         if case["seed"] is not None and not case.get("alias_x", False) and any(t in ("x", "class") for t in toks):
             def fetch(m):
-                return ModeWrapper(dataset=w, mode=m)[idx]
+                return ModeWrapper(dataset=top, mode=m)[idx]
             try:
                 x1 = fetch("x")
                 c1 = fetch("class")
@@ -392,7 +491,7 @@ def run_impl(case):
                          and torch.equal(c1, c2) and torch.equal(c2, c3) and torch.equal(c3, c4))
                 for it, t in zip(items, toks):
                     if t == "x":
-                        agree = agree and torch.equal(it, x2)
+                        agree = agree and torch.equal(it, x2 / 2 if above else x2)
                     if t == "class":
                         agree = agree and torch.equal(it, c2)
                 obs["views_agree"] = bool(agree)
@@ -403,12 +502,45 @@ def run_impl(case):
         M.np = orig_np
     # transparency of the spy: the same request with numpy's own default_rng (seeded cases, numpy draws)
     if obs["result"] == "ok" and case["seed"] is not None and case["rng"][0] == "numpy" and not case.get("alias_x", False):
-        out2 = ModeWrapper(dataset=w, mode=mode)[idx]
-        items2 = [out2] if len(case["tokens"]) == 1 else list(out2)
+        _, items2, _ = unpack_out(ModeWrapper(dataset=top, mode=mode, return_ctx=rc)[idx])
         same = True
         for a, b in zip(items, items2):
             same = same and (torch.equal(a, b) if isinstance(a, torch.Tensor) else a == b)
         obs["unpatched_same"] = bool(same)
+    # through a real DataLoader (the stack's own worker_init_fn; samples are returned uncollated)
+    ld = case.get("loader")
+    if ld and obs["result"] == "ok" and not case.get("alias_x", False):
+        torch.manual_seed(case["rng"][1])
+        mwl = ModeWrapper(dataset=top, mode=mode, return_ctx=rc)
+        try:
+            # the requested sample three times (other samples of the dataset may raise one of the documented errors)
+            loader = DataLoader(mwl, batch_size=ld["bs"], sampler=[norm_idx] * 3, num_workers=ld["workers"],
+                                collate_fn=_identity_collate, worker_init_fn=mwl.worker_init_fn if ld["workers"] else None)
+            got = [smp for batch in loader for smp in batch]
+            del loader
+            if ld["workers"]:
+                gc.collect() # no stale worker-iterator objects may survive into the next fork
+            if len(got) != 3:
+                obs["loader"] = f"{len(got)} samples for a sampler of 3"
+            else:
+                _, items3, ctx3 = unpack_out(got[-1])
+                obs["loader_items"] = [summarise(it, t) for it, t in zip(items3, case["tokens"])]
+                obs["loader_ctx"] = None if ctx3 is None else {str(k): (int(v) if isinstance(v, int) else repr(v)) for k, v in ctx3.items()}
+                if case["seed"] is not None:
+                    # reference: the same seeded request in this process with numpy's own generator
+                    _, ref, _ = unpack_out(ModeWrapper(dataset=top, mode=mode, return_ctx=rc)[idx])
+                    same = len(items3) == len(ref)
+                    for a, b in zip(ref, items3):
+                        same = same and (torch.equal(a, b) if isinstance(a, torch.Tensor) else a == b)
+                    obs["loader"] = "same" if same else "differs from the in-process request with the same seed"
+                else:
+                    obs["loader"] = "unseeded"
+        except Exception as e:
+            r = classify(e, "getitem")
+            if expected_error(case, {"result": r}):
+                obs["loader"] = "documented error"
+            else:
+                obs["loader"] = "raised " + type(e).__name__ + ": " + str(e)[:300]
     return obs
 
 
@@ -432,12 +564,20 @@ def expected_error(case, obs):
     """is this exception documented behaviour for this configuration?"""
     r = obs["result"]
     toks = case["tokens"]
+    ls_above = (case.get("stack") or {}).get("ls_above")
     if r == "AssertionError@ModeWrapper":
-        return any(t not in ("x", "class", "index") for t in toks)
+        # label smoothing above the mix wrapper: "LabelSmoothingWrapper has no method getitem_x / getitem_xclass" (below a
+        # wrapper with fused items ModeWrapper wants every item implemented on the outermost wrapper's class)
+        return any(t not in ("x", "class", "index") for t in toks) or (ls_above is not None and "x" in toks)
+    if r == "AssertionError@getitem" and ls_above and "class" in toks:
+        return True        # LabelSmoothingWrapper asserts a class id, the mix wrapper hands it a vector
     if r == "NotImplementedError":
         return (case["cutmix_p"] or 0.0) > 0.0 or case["unify"] not in (None, "pad_or_cut_end")
     if r == "AssertionError@getitem":
         return case["unify"] is None and len({tuple(s) for s in case["shapes"]}) > 1
+    if r == "RuntimeError@one_hot":
+        # a class id outside [0, n_classes): torch's one_hot raises as soon as that sample (i or the partner) is loaded
+        return any(row[0] == "int" and not (0 <= row[1] < case["ncls"]) for row in label_rows(case))
     if r == "TypeError@beta(None)":
         # cutmix-only configuration (nothing of it is implemented) and apply == cutmix_p == total_p exactly:
         # the draw is not < cutmix_p, so the mixup branch runs with mixup_alpha None
@@ -516,7 +656,9 @@ def check_items(case, obs, i, p, w):
             if d > 1e-5:
                 return (f"label {[round(v, 6) for v in it[1]]} differs by {d:.6f} from " +
                         ("the one-hot label" if p is None else f"{w:.6f}*y_{i} + {1 - w:.6f}*y_{p} = {[round(float(v), 6) for v in ex_c]}"))
-            if float(r.min()) < 0.0 or abs(float(r.sum()) - 1.0) > 1e-5:
+            ins = [li] if p is None else [li, lp]
+            if all(abs(float(v.sum()) - 1.0) <= 1e-6 and float(v.min()) >= 0.0 for v in ins) and \
+                    (float(r.min()) < 0.0 or abs(float(r.sum()) - 1.0) > 1e-5):
                 return f"label {[round(v, 6) for v in it[1]]} is not a probability vector (sum {float(r.sum()):.6f})"
         elif t == "index":
             if it[1] != i:
@@ -600,6 +742,35 @@ def oracle(case, obs):
         return f"sample {i}: no (partner, weight) the dataset was asked for explains the returned items: {msg}"
     if msg:
         return msg
+    # the returned context describes the requested sample
+    for name, c in (("", obs.get("ctx")), (" (through the DataLoader)", obs.get("loader_ctx"))):
+        for k, v in (c or {}).items():
+            if v != i:
+                return (f"the context returned for sample {i}{name} carries the entry {k!r} = {v} recorded while another "
+                        f"sample (the mixing partner) was loaded: {c}")
+    if case.get("rc") and any(t in ("x", "class") for t in case["tokens"]) and set(obs.get("ctx") or {}) < {"x_of", "cls_of"}:
+        return f"the returned context lacks the entries recorded while sample {i} was loaded: {obs.get('ctx')}"
+    if case.get("loader") and not alias:
+        lo = obs.get("loader")
+        if lo not in ("same", "unseeded", "documented error"):
+            return f"fetching the dataset through a DataLoader ({case['loader']}): {lo}"
+        if lo == "unseeded":
+            # no seed: the draw differs, the sample must still be untouched or a convex combination with ONE partner
+            o2 = dict(obs, items=obs["loader_items"])
+            msgs = []
+            for p in [None] + list(range(n)):
+                if p is None:
+                    m = None if obs["total_p"] < 1.0 or not any(t in ("x", "class") for t in case["tokens"]) else "p=1"
+                    m = m or check_items(case, o2, i, None, 1.0)
+                else:
+                    wgt = decode(case, o2, i, p)
+                    m = "weight outside [0,1]" if not (-1e-6 <= wgt <= 1 + 1e-6) else check_items(case, o2, i, p, min(1.0, max(0.0, wgt)))
+                if m is None:
+                    break
+                msgs.append(m)
+            else:
+                return (f"sample {i} fetched through a DataLoader is neither untouched nor a convex combination with one "
+                        f"partner: {msgs[-1]}")
     if case["seed"] is not None and any(t in ("x", "class") for t in case["tokens"]):
         if obs.get("views_agree") is not True:
             return f"seed {case['seed']}: 'x', 'class', 'x class', 'class x' and a repeated request disagree ({obs.get('views_agree')})"
@@ -628,7 +799,7 @@ def coq_label(row):
 
 
 OUTCOME = {"ok": 0, "AssertionError@getitem": 1, "NotImplementedError": 2, "AssertionError@ModeWrapper": 3,
-           "TypeError@beta(None)": 6}
+           "RuntimeError@one_hot": 4, "TypeError@beta(None)": 6}
 
 
 def coq_applicable(case, obs):
@@ -636,6 +807,8 @@ def coq_applicable(case, obs):
         return False
     if obs["result"] not in OUTCOME:
         return False
+    if (case.get("stack") or {}).get("ls_above") is not None and (obs["result"] != "ok" or "class" in case["tokens"]):
+        return False       # rejected by ModeWrapper / LabelSmoothingWrapper (or smoothing 0 passing the vector through)
     if obs["result"] == "ok":
         return obs.get("calls") is not None and obs.get("layout") in ("single", "tuple") \
             and obs["n_items"] == len(case["tokens"])
@@ -660,7 +833,7 @@ def coq_case(case, obs):
         total_p=q(obs["total_p"]), cutmix_p=q(case["cutmix_p"] or 0.0),
         mixup_alpha=Opt(None if case["mixup_alpha"] is None else q(float(case["mixup_alpha"]))),
         cutmix_alpha=Opt(None if case["cutmix_alpha"] is None else q(float(case["cutmix_alpha"]))),
-        unify=Raw(unify), seed=Opt(case["seed"]),
+        unify=Raw(unify), seed=Opt(case["seed"]), with_ctx=bool(case.get("rc", False)),
     )
     rows = label_rows(case)
     lit = [([Nat(s) for s in sh], [q(v) for v in sample_values(k, sh)], coq_label(rows[k]))
@@ -668,7 +841,8 @@ def coq_case(case, obs):
     calls = []
     for c in (obs.get("calls") or []):
         loads = [C("LdX" if l[0] == "x" else "LdClass", int(l[1])) for l in c["loads"]]
-        calls.append(Rec(oc_seed=Opt(c["seed"]), oc_draws=[coq_draw(d) for d in c["trace"]], oc_loads=loads))
+        cl = [C("LdX" if l[0] == "x" else "LdClass", int(l[1])) for l in c.get("ctx_loads", [])]
+        calls.append(Rec(oc_seed=Opt(c["seed"]), oc_draws=[coq_draw(d) for d in c["trace"]], oc_loads=loads, oc_ctx=cl))
     items = []
     wit = Raw("None")
     if obs["result"] == "ok":
@@ -689,14 +863,15 @@ def coq_case(case, obs):
             cs = obs.get("calls") or []
             p = call_partner(cs[-1])[0] if cs else None
             wit = Raw("None") if p is None else Opt((Nat(max(0, p)), q(0.5)))
-    o = Rec(o_calls=calls, o_items=items, o_wit=wit)
+    ctx_ids = [v if isinstance(v, int) else -1 for v in (obs.get("ctx") or {}).values()] if obs["result"] == "ok" else []
+    o = Rec(o_calls=calls, o_items=items, o_wit=wit, o_ctx_ids=ctx_ids)
     return coq((cfg, (lit, Nat(case["ncls"])), [tok(t) for t in case["tokens"]], Nat(i), Nat(OUTCOME[obs["result"]]), o))
 
 
 # ---------------------------------------------------------------------------
 # cases
 # ---------------------------------------------------------------------------
-def gen_case(rng, big=False):
+def gen_case(rng, big=False, tier="quick"):
     n = rng.choice([1, 2, 2, 3, 3, 4, 4, 5, 6, 7])
     rank = rng.choice([1, 1, 2, 2, 3])
     hi = 5 if big else 4
@@ -756,13 +931,50 @@ def gen_case(rng, big=False):
         case["tokens"] = case["tokens"] + ["aux0"]
     if rng.random() < 0.04:
         case["alias_x"] = True
+    # return_ctx, wrapper stacks around the mix wrapper
+    case["rc"] = rng.random() < 0.5
+    stack = {}
+    if rng.random() < 0.3:
+        stack["xt_rec_below"] = True
+    if kind in ("int", "computed", "tensor0") and rng.random() < 0.3:
+        stack["ls_below"] = rng.choice([0.1, 0.125, 0.25, 0.5, 1.0, 0])
+    if rng.random() < 0.2:
+        stack["xt_above"] = True
+    elif rng.random() < 0.05:
+        stack["ls_above"] = rng.choice([0.1, 0.5, 0])
+    if stack:
+        case["stack"] = stack
+    # class counts / labels outside the usual: one class, class ids out of range, 1-element float vectors
+    r = rng.random()
+    if r < 0.06 and kind in ("int", "tensor0") and stack.get("ls_below") is not None:
+        stack.pop("ls_below")              # the smoothing wrapper has its own ideas about one class / ids out of range
+        case["stack"] = stack
+    if r < 0.03 and kind in ("int", "tensor0"):
+        case["ncls"] = 1
+        case["labels"] = [kind, [rng.choice([0, 0, 0, 1]) for _ in range(n)]]
+    elif r < 0.06 and kind in ("int", "tensor0"):
+        v = list(case["labels"][1])
+        v[rng.randrange(n)] = rng.choice([case["ncls"], case["ncls"] + 2, -1])
+        case["labels"] = [kind, v]
+    elif r < 0.09:
+        case["ncls"] = 1
+        case["labels"] = ["vec1", [[rng.choice([0, 16, 16, 0, 8, 4])] for _ in range(n)]]
+        case.pop("stack", None)
+        if stack.get("xt_rec_below") or stack.get("xt_above"):
+            case["stack"] = {k: v for k, v in stack.items() if k != "ls_below"}
+    if tier_loader(rng, tier):
+        case["loader"] = {"bs": rng.randint(1, 3), "workers": 2 if (tier == "thorough" and rng.random() < 0.5) else 0}
     return case
+
+
+def tier_loader(rng, tier):
+    return rng.random() < (1 / 7)
 
 
 def gen_cases(rng, tier):
     nq = 1000 if tier == "quick" else 8000
-    out = [gen_case(rng) for _ in range(nq)]
-    out += [gen_case(rng, big=True) for _ in range(100 if tier == "quick" else 1500)]
+    out = [gen_case(rng, tier=tier) for _ in range(nq)]
+    out += [gen_case(rng, big=True, tier=tier) for _ in range(100 if tier == "quick" else 1500)]
     return out
 
 
@@ -772,6 +984,14 @@ def search_cases(rng, tier):
 
 
 def shrink(case):
+    for key in ("loader", "stack"):
+        if case.get(key):
+            c = dict(case)
+            c.pop(key)
+            yield c
+    if case.get("stack") and len(case["stack"]) > 1:
+        for k in case["stack"]:
+            yield dict(case, stack={a: b for a, b in case["stack"].items() if a != k})
     n = len(case["shapes"])
     i = case["idx"] + n if case["idx"] < 0 else case["idx"]
     kind, vals = case["labels"]
@@ -833,6 +1053,13 @@ def features(case, obs):
                 yield "apply == total_p exactly"
             if d[0] == "beta" and d[3] in (0.0, 1.0):
                 yield "lambda exactly 0 or 1"
+    yield "return_ctx=%s" % bool(case.get("rc"))
+    for k in (case.get("stack") or {}):
+        yield "stack " + k
+    if case.get("loader"):
+        yield "loader workers=%d: %s" % (case["loader"]["workers"], str(obs.get("loader"))[:20])
+    if case["ncls"] == 1:
+        yield "one class"
     if case.get("alias_x", False):
         yield "alias_x: " + ("base dataset modified" if obs.get("mutated") else "base dataset unchanged")
 
@@ -850,4 +1077,5 @@ def nontrivial_key(case, obs):
     if not (0 <= p < n):
         return None
     return (tuple(case["shapes"][i]), tuple(case["shapes"][p]), tuple(case["tokens"]), case["labels"][0], case["unify"],
-            case["seed"] is not None, case["mixup_p"], case["cutmix_p"])
+            case["seed"] is not None, case["mixup_p"], case["cutmix_p"], tuple(sorted(case.get("stack") or {})),
+            bool(case.get("rc")))
